@@ -1543,6 +1543,17 @@ class Program:
             if cur.op == "call" and cur.args[0] in ("vec::Vec::new", "vec::Vec::with_capacity") and self._closed_or_symbolic(args[1]):
                 an.write(st, arg_lvs[0], T.call("iter::Iterator::collect", (), [self._stabilise(an, st, args[1])]))
                 return T.call(dq, generics, [T.refval(cur), self._stabilise(an, st, args[1])])
+        if dq == "[T]::copy_from_slice" and len(args) == 2 and mut_idx == [0]:
+            # dst.copy_from_slice(src) (it returned, so the lengths agree): the destination now holds the bytes of src.  When the
+            # destination is a whole local array seen through an unsizing borrow, the local's value is that view of the source
+            d0 = args[0]
+            if d0.op == "unsize" and d0.args[0].op == "ref" and not d0.args[0].args[1]:
+                lv = (d0.args[0].args[0], d0.args[0].args[1])
+                src = args[1]
+                src = src.args[0] if src.op == "refval" else T.deref(src)
+                if self._closed_or_symbolic(src):
+                    an.write(st, lv, src)
+                    return T.agg("tuple", None, 0, None, [])
         if mut_idx:
             an._havoc_mut_args(st, site, t, args, None)
             return T.fresh(site, "ret")
